@@ -487,6 +487,14 @@ class StmtMixin:
             h.conds.append(z3.ForAll([x], z3.Implies(z3.Contains(seq.t, z3.Unit(x)), z3.And(w(x) >= 0, w(x) < z3.Length(seq.t), seq.t[w(x)] == x)),
                                      patterns=[z3.Contains(seq.t, z3.Unit(x))]))
             h.conds.append(z3.ForAll([a], z3.Implies(z3.And(a >= 0, a < z3.Length(seq.t)), z3.Contains(seq.t, z3.Unit(seq.t[a]))), patterns=[seq.t[a]]))
+        if seq is not None and spec.get("prefix_lemma"):
+            # facts about the prefixes of the iterated sequence (true of all sequences; the solvers do not derive them by themselves):
+            # the prefix of length pos+1 has the members of the prefix of length pos plus the element at pos; the full prefix is the sequence
+            px = bound_var("px", seq.t.sort().basis())
+            pre = lambda n_: z3.SubSeq(seq.t, 0, n_)
+            h.conds.append(z3.Implies(pos < n_len, z3.ForAll([px], z3.Contains(pre(pos + 1), z3.Unit(px)) == z3.Or(z3.Contains(pre(pos), z3.Unit(px)), seq.t[pos] == px))))
+            h.conds.append(pre(n_len) == seq.t)
+            h.conds.append(z3.ForAll([px], z3.Not(z3.Contains(pre(z3.IntVal(0)), z3.Unit(px)))))
         h = self.assume_invariants(h, spec, envh)
         if not self.feasible(h):
             return
